@@ -723,7 +723,11 @@ impl<'tcx> Ex<'tcx> {
             };
             let mut fields = Vec::new();
             for f in v.fields.iter() {
-                let ft = tcx.type_of(f.did).instantiate_identity().skip_norm_wip();
+                let ft0 = tcx.type_of(f.did).instantiate_identity();
+                let env = ty::TypingEnv::post_analysis(tcx, did);
+                let ft = tcx
+                    .try_normalize_erasing_regions(env, ft0)
+                    .unwrap_or(tcx.type_of(f.did).instantiate_identity().skip_norm_wip());
                 let vis = match f.vis {
                     ty::Visibility::Public => "pub".to_string(),
                     ty::Visibility::Restricted(r) => format!("restricted:{}", self.path(r)),
